@@ -58,6 +58,35 @@ def run(ctx):
             if k in ('PANIC', 'HANG', 'ABORT', 'missing'):
                 src = ' '.join(t.split(',', 1)[1] for t in c[4:]) if what == 'tokens' else c[3]
                 ctx.fail('oracle', c, impl=r[:200], expect='Ok or Err, promptly', note=f'{k} in lex/parse/build on {src[:160]!r}')
+    # the hypothesis NodesShaped of C03_build_total: every Symbol token the real lexer emits starts with `:`, every
+    # ByteList token is q quotes + body + q quotes (parse copies token texts into nodes unchanged: PARSE correspondence)
+    lexcases = [['LEX', 'x' + c[1], c[3]] for c in textcases]
+    li = vlib.run_impl(lexcases, 'c03l', per_case_s=10.0)
+    nshape = 0
+    for c in lexcases:
+        r = li.get(c[1], 'missing')
+        if not r.startswith('ok'):
+            continue
+        for f in r.split('\t')[1:]:
+            parts = f.split(',', 3)
+            if len(parts) < 4:
+                continue
+            ty, tx = parts[0], vlib.unesc(parts[3])
+            bad = None
+            if ty == 'Symbol':
+                nshape += 1
+                if not tx.startswith(':'):
+                    bad = 'Symbol token does not start with a colon'
+            elif ty == 'ByteList':
+                nshape += 1
+                q = len(tx) - len(tx.lstrip("'"))
+                if 2 * q > len(tx):
+                    q = len(tx) // 2 if tx.strip("'") == '' else q
+                if q == 0 or not tx.endswith("'" * q) or len(tx) < 2 * q:
+                    bad = 'ByteList token is not q quotes + body + q quotes'
+            if bad:
+                ctx.fail('oracle', c, impl=r[:300], expect='LexShaped tokens', note=f'{bad}: {tx!r} — the hypothesis NodesShaped of C03_build_total does not hold of this lexer output')
+    stats['lexer tokens checked for LexShaped'] = nshape
     # growth: time each regular long input separately (single worker), flag clearly super-quadratic growth
     growth = {}
     if not ctx.replay:
@@ -80,4 +109,4 @@ def run(ctx):
     for c in textcases[:: max(1, len(textcases) // 5)][:5]:
         ctx.sample({'text': c[3][:120], 'impl': (ti.get(c[1]) or '')[:160]}, cap=80)
     ctx.trusted += ['wall-clock promptness, native stack exhaustion and allocation failure are runtime facts watched by the oracle (deadline, RLIMIT_AS), not modelled',
-                    'theorems: lex_total (Lemmas/Lexer), parse_safe (Lemmas/Parser), build lemmas (Lemmas/Build) on the transliterated models tied by LEX / PARSE / BUILD']
+                    'theorems: C03_lex_total, C03_parse_total, C03_build_total (never panic, never out of fuel, under NodesShaped) on the transliterated models; the models are tied to the code by LEX (check C13), PARSE (C02/C04), BUILD (C05); NodesShaped is checked here on every token the real lexer emits']
